@@ -250,6 +250,10 @@ class Agg:
         self.d = {}
 
     def add(self, what, features, detail):
+        # the framework keeps a few detailed cases per `what`: name the class in it
+        tag = ",".join(str(features[k]) for k in ("cause", "op", "where") if k in features)
+        if tag and not what.endswith("]"):
+            what = "%s [%s]" % (what, tag)
         k = (what, common.skey(features))
         if k in self.d:
             self.d[k][2]["occurrences"] += 1
@@ -636,7 +640,7 @@ def _machine(chk: Check, agg: Agg, W, max_log, depth, use_ent, use_flt, label):
     # the export run enumerates the same graph and checks the invariants on it
     cfg = ("SPECIFICATION MSpecLog\n" + consts + "CONSTRAINT Bound\n" + "".join("INVARIANT %s\n" % i for i in LOG_INVS)
            + "PROPERTY LogOnlyAppends\n")
-    cfgp = os.path.join(chk.scratch, "mbt-%s.cfg" % label)
+    cfgp = os.path.join(chk.scratch, "mbt-%s.cfg" % label.replace(" ", "_"))
     with open(cfgp, "w") as f:
         f.write(cfg)
     res = common.run_tlc(os.path.join(common.SPECS, "FilterLog_MBT.tla"), cfgp, workers=1, scratch=chk.scratch, heap="8g")
@@ -1137,7 +1141,8 @@ def run(chk: Check):
     chk.cov["rule"] = (
         "B3: every TLC-printed row replayed through compile_filter/.match with short_circuit on and off on fresh, thawed and "
         "re-imported entries (atom rows: every operator x field value x literal, selector x field layout; tree rows: every "
-        "expression tree up to the depth bound in both renderings, every node compared on all T/F/inapplicable valuations; token "
+        "expression tree up to the depth bound in both renderings, every node compared on all T/F/inapplicable valuations (fresh "
+        "entries; the root on thawed and re-imported ones); token "
         "rows: every token string up to the length bound). non-trivial = atom rows that are true or inapplicable, trees/parses with "
         "an operator. B1: every edge of the bounded log machine replayed twice (plain, behind WrappingMessageLogger); non-trivial = "
         "edges that change the abstract state. B2: random filters/entries/walks/preservation records validated by TLC.")
@@ -1174,6 +1179,7 @@ def run(chk: Check):
         _machine(chk, agg, 2, 4, 9, "{1,2,3,4}", "{1,2,3,4,5,6,7}", "W2")
         _machine(chk, agg, 1, 4, 7, "{1,2,3,4}", "{1,2,3,4,5,6,7}", "W1")
         _machine(chk, agg, 3, 5, 7, "{1,2,4}", "{1,2,4,5,6}", "W3")
+        _machine(chk, agg, 2, 5, 7, "{1,2,3,4}", "{1,2,3,4,5,6,7}", "W2 five entries")
     lap("machine")
     # ---- part 3: code -> spec
     n = 1 if quick else 8
